@@ -364,7 +364,7 @@ CFG = {
              "getOwnPropertyDescriptor, delete, ownKeys, preventExtensions, freeze, seal, isFrozen, isSealed, isExtensible, "
              "get/setPrototypeOf) over 2..4 objects of 13 kinds (plain, null-prototype, function, class, unmapped arguments, "
              "String, bound function, Go-created, arrow, and the lazily templated built-ins Math, JSON, Reflect, "
-             "Function.prototype with their own keys abs/parse/apply) with prototype chains, a per-case pool of 2..6 of 23 keys "
+             "Function.prototype with their own keys abs/parse/apply) with prototype chains, a per-case pool of 2..6 of 25 keys (incl. the template symbols Symbol.toStringTag / Symbol.hasInstance of the built-in kinds, whose initial state is stated, not queried, so that their lazy symbol tables stay un-materialised; half of the cases with a built-in open with a user-symbol set/define/delete/has on it) "
              "(array indices incl. 2^32-2, integer strings beyond the index range '4294967295' '4294967296' '10000000000', "
              "numeric-looking strings '-0' '1e3' '01' '1.0', plain strings, symbols; integer keys also passed as numbers and as "
              "-0); 30% of the cases use a key-order profile (index and big-integer keys, define/delete/ownKeys/number-keyed "
@@ -373,7 +373,7 @@ CFG = {
              "descriptor dumps of all objects (Reflect.ownKeys order, isExtensible, prototype) at random points and at the end; "
              "non-trivial = at least one operation was refused (false / TypeError); distinct = by hash of the case"),
     "theorem_names": ["define_eq_spec", "define_wf", "define_step_eq_spec", "set_eq_spec", "get_eq_spec", "has_eq_spec",
-                      "bookkeeping_invariant", "essential_invariants",
+                      "bookkeeping_invariant", "invariants_along_histories", "essential_invariants",
                       "nonextensible_invariants", "frozen_is_final", "ownkeys_order", "ownkeys_unique",
                       "ownkeys_same_set", "idxcount_exact", "set_only_receiver", "goja_set_only_receiver"],
     "allowed_axioms": [],
@@ -387,7 +387,7 @@ CFG = {
     ],
     "assumptions": [
         "getter/setter functions only log their call and return a constant; values are undefined, small integers and the objects of the case",
-        "own properties outside the 23-key pool (length, name, prototype, callee ...) are not modelled: isFrozen/isSealed are "
+        "own properties outside the 25-key pool (length, name, prototype, callee ...) are not modelled: isFrozen/isSealed are "
         "compared on such objects only when the answer is true",
         "descriptors mixing accessor and data fields (rejected by ToPropertyDescriptor before any internal method) are not generated",
         "the implementation is tied to the model only on the generated histories (correspondence), not by proof",
@@ -404,9 +404,9 @@ CFG = {
                  "every history of add/delete/enumerate goja's lazily sorted propNames equals OrdinaryOwnPropertyKeys, keys unique, "
                  "idxPropCount exact; (4) goja's [[Set]] (setOwn*/setForeign* for string, index and symbol keys, incl. the "
                  "idxPropCount shortcut) equals OrdinarySet on related heaps for every target, receiver and prototype chain (likewise [[Get]], "
-                 "[[Has]], [[GetOwnProperty]], define), under a bookkeeping invariant proved to hold along every history. 24 "
+                 "[[Has]], [[GetOwnProperty]], define), under a bookkeeping invariant and a representation invariant proved to hold along every history. 25 "
                  "theorems, no axioms. Tied to /repo on every run by 1500 (quick) / 100000 (thorough) generated histories over 13 "
-                 "object kinds (incl. the lazily templated built-ins Math, JSON, Reflect, Function.prototype), 23 keys of 5 kinds "
+                 "object kinds (incl. the lazily templated built-ins Math, JSON, Reflect, Function.prototype), 25 keys of 6 kinds "
                  "and 4 API surfaces, compared step by step (results, accessor events, descriptor dumps) with S and with the "
                  "transcription I evaluated by vm_compute; no finding is open, so every disagreement is a VIOLATION."),
         "note": ("trusted: Coq kernel + vm_compute; the hand transcriptions coq/C04/Model.v of ECMA-262 10.1 (S) and of "
